@@ -519,6 +519,13 @@ namespace {
             ev.set("e", "text").set("key", text).set("who", who).set("bytes", bytes_of(bytes)).set("graph", g);
             emit(ev, true);
          };
+         auto text_event_keyed = [&](const std::string& key, const std::string& bytes, long d0, long d1, const char* who) {
+            auto ev = Value::object();
+            auto g = Value::array();
+            g.push(d0).push(d1);
+            ev.set("e", "text").set("key", key).set("who", who).set("bytes", bytes_of(bytes)).set("graph", g);
+            emit(ev, true);
+         };
          text_event(ta, da, digest(a), "lexicon A");
          text_event(tb, db, digest(b), "lexicon B, interleaved with unrelated allocations");
          text_event(ta2, da, digest(a), "lexicon A, fresh printer");
@@ -541,6 +548,21 @@ namespace {
          }
          auto off = render(a.lex, sa, false);
          auto on = render(a.lex, sa, true);
+         {
+            // the same unit printed again by a fresh printer on the stream the first one wrote to: the same text once more
+            std::ostringstream os;
+            std::string first, second;
+            for (std::string* half : { &first, &second }) {
+               auto before = os.str().size();
+               ipr::Printer pp { a.lex, os };
+               pp.print_locations = true;
+               try { pp << ipr::xpr_stmt(sa); } catch (const std::logic_error&) { os << "<logic_error>"; }
+               *half = os.str().substr(before);
+            }
+            auto dg = digest(a);
+            text_event_keyed(text + " (located)", first, dg, dg, "lexicon A, locations on, first printer on a stream");
+            text_event_keyed(text + " (located)", second, dg, digest(a), "lexicon A, locations on, fresh printer on the same stream");
+         }
          std::vector<std::string> pfx;
          for (auto& l : locs) {
             std::string p = "F" + std::to_string(l[0]) + ":" + std::to_string(l[1]);
